@@ -47,6 +47,9 @@ pub fn chunk_plans() -> Vec<ChunkPlan> {
         p(vec![Sz::Abs(5)], 0b011, 3),                                         // 2 Pendings per chunk
         p(vec![], 0b01, 2),                                                    // Pending first
         p(vec![Sz::Rem(2), Sz::Abs(0), Sz::Abs(1), Sz::Abs(0), Sz::Abs(1)], 0b0100, 4),
+        // long runs of empty chunks between the data (an honest, if odd, stream)
+        p(std::iter::repeat(Sz::Abs(0)).take(40).chain([Sz::Abs(5)]).collect(), 0, 0),
+        p(std::iter::repeat(Sz::Abs(0)).take(100).chain([Sz::Rem(3), Sz::Abs(1)]).collect(), 0b1, 32),
     ]
 }
 
@@ -189,4 +192,55 @@ pub fn default_ent(len: u64) -> EntSpec {
         slow_calls: false,
         content_mode: 0,
     }
+}
+
+/// The categorical product of request shapes for an entity: Range kind x If-Range kind x one
+/// precondition. 5 x 5 x 10 requests; used where a property must hold whatever else the request
+/// carries (header combinations no single-property workload would pair up).
+pub fn shape_requests(ent: &EntSpec) -> Vec<Vec<(String, Vec<u8>)>> {
+    let l = ent.len;
+    let tags = tag_variants(ent.etag.as_deref());
+    let own: Vec<u8> = ent.etag.clone().unwrap_or_else(|| b"\"v1\"".to_vec());
+    let sec = ent.mtime.map(|m| m.0).unwrap_or(FIXED_SEC);
+    let date = |d: i64| fmt_date((sec as i64 + d) as u64, DateStyle::Imf).into_bytes();
+    let ranges: Vec<Option<Vec<u8>>> = vec![
+        None,
+        Some(b"bytes=1-3".to_vec()),
+        Some(b"bytes=0-1, 5-6".to_vec()),
+        // two ranges that together are not smaller than the entity: answered with the whole entity
+        Some(format!("bytes=0-{},{}-{}", l / 2 + 10, l / 2, l.saturating_sub(1)).into_bytes()),
+        Some(format!("bytes={}-", l.saturating_add(5)).into_bytes()),
+    ];
+    let if_ranges: Vec<Option<Vec<u8>>> = vec![None, Some(own.clone()), Some(b"\"other\"".to_vec()), Some(date(0)), Some(date(1))];
+    let pres: Vec<Option<(&str, Vec<u8>)>> = vec![
+        None,
+        Some(("if-match", b"*".to_vec())),
+        Some(("if-match", own.clone())),
+        Some(("if-match", b"\"nope\"".to_vec())),
+        Some(("if-none-match", b"\"nope\"".to_vec())),
+        Some(("if-none-match", tags[1].clone())),
+        Some(("if-unmodified-since", date(1))),
+        Some(("if-unmodified-since", date(-1))),
+        Some(("if-modified-since", date(-1))),
+        Some(("if-modified-since", date(0))),
+    ];
+    let mut out = Vec::new();
+    for r in &ranges {
+        for ir in &if_ranges {
+            for p in &pres {
+                let mut h: Vec<(String, Vec<u8>)> = Vec::new();
+                if let Some((k, v)) = p {
+                    h.push((k.to_string(), v.clone()));
+                }
+                if let Some(r) = r {
+                    h.push(("range".into(), r.clone()));
+                }
+                if let Some(ir) = ir {
+                    h.push(("if-range".into(), ir.clone()));
+                }
+                out.push(h);
+            }
+        }
+    }
+    out
 }
